@@ -154,3 +154,119 @@ def run(ctx):
         r4.ok("__Integrate_3d: n == 0 returns Compute_sigma(...) and the elastic tangent")
     else:
         r4.fail(f3.qualname, "elastic-path", f3.file, f3.lineno, "__Integrate_3d", "no early elastic return for a material without internal variables")
+    condensation_rule(ctx, beh)
+    evaluation_point_rule(ctx, beh)
+
+
+def condensation_rule(ctx, beh):
+    """R19.5: the plane-stress tangent is the Schur complement of the zz row/column of the 3-D algorithmic tangent,
+    for a tangent that is NOT assumed symmetric (recall terms of non-associated / kinematic hardening)."""
+    from ..alg import Poly, Rat, is_zero
+    from ..xeval import Interp, XObj
+    from ..xarray import XArray
+    from ..femchain import XFe, fe_hook_full
+
+    repo = ctx.repo
+    r = ctx.rule("R19.5", "plane-stress condensation: C2d[i,j] = C[I_i,I_j] - C[I_i,zz] C[zz,I_j] / C[zz,zz] on a general (non-symmetric) 6x6 tangent, I = the in-plane Kelvin slots", min_instances=1)
+    f = beh.methods.get("__Condense")
+    if f is None:
+        raise AnalysisError("Behavior.__Condense not found")
+    mod = f.module
+    I = Interp(repo)
+    I.call_hook = fe_hook_full
+    idx = [int(x) for x in XArray.from_nested(I.eval_expr(ast.Name(id="IDX_2D", ctx=ast.Load(), lineno=f.lineno, col_offset=0), {}, f.file, mod)).data]
+    zz = int(I.eval_expr(ast.Name(id="ZZ", ctx=ast.Load(), lineno=f.lineno, col_offset=0), {}, f.file, mod))
+    r.instance(fn=f.qualname)
+    if idx != [0, 1, 5] or zz != 2:
+        r.fail(f.qualname, "slots", f.file, f.lineno, "__Condense", f"in-plane Kelvin slots {idx} / zz slot {zz}: expected [0, 1, 5] (xx, yy, xy) and 2")
+        return
+    C = XFe((1, 1, 6, 6), [Poly.var(f"c{i}{j}") for i in range(6) for j in range(6)])
+    out = XArray.from_nested(I.call_function(f, [C], self_obj=XObj(beh, {})))
+    bad = None
+    if out.shape != (1, 1, 3, 3):
+        bad = f"result has shape {out.shape}"
+    else:
+        for a, i in enumerate(idx):
+            for b, j in enumerate(idx):
+                want = Rat.of(C[0, 0, i, j]) - Rat.of(C[0, 0, i, zz] * C[0, 0, zz, j]) / Rat.of(C[0, 0, zz, zz])
+                if not is_zero(Rat.of(out[0, 0, a, b]) - want):
+                    bad = f"entry ({a},{b}) = {out[0, 0, a, b]!r}, expected c{i}{j} - c{i}{zz}*c{zz}{j}/c{zz}{zz}"
+    if bad:
+        r.fail(f.qualname, "schur", f.file, f.lineno, "__Condense", f"the condensed tangent is not the Schur complement of the zz row and column: {bad} (a symmetric 3-D tangent hides this)")
+    else:
+        r.ok("__Condense == Schur complement of (zz, zz), row and column kept distinct")
+
+
+def evaluation_point_rule(ctx, beh):
+    """R19.6: in the local residual and Jacobian the hardening laws are evaluated at the updated state value
+    zOld + du (never at the bare increment), and both functions evaluate them at the same expression."""
+    from ..flow import Locals
+
+    repo = ctx.repo
+    r = ctx.rule("R19.6", "evaluation point: every state value handed to the hardening / back-stress / stress functions in __Residual and __Jacobian is a slot of (committed state + increment); R and dR are evaluated at the same point", min_instances=3)
+    texts = {}
+    for nm in ("__Residual", "__Jacobian"):
+        f = beh.methods.get(nm)
+        if f is None:
+            raise AnalysisError(f"Behavior.{nm} not found")
+        loc = Locals(f.node)
+        params = [p for p in f.params() if p != "self"]
+
+        def is_state_sum(e):
+            # <param> + <param>[..., :n]   (either order)
+            if not (isinstance(e, ast.BinOp) and isinstance(e.op, ast.Add)):
+                return False
+            a, b = e.left, e.right
+            for x, y in ((a, b), (b, a)):
+                if isinstance(x, ast.Name) and x.id in params and isinstance(y, ast.Subscript) and isinstance(y.value, ast.Name) and y.value.id in params and y.value.id != x.id:
+                    return True
+            return False
+
+        def base_of(e):
+            while isinstance(e, ast.Subscript):
+                e = e.value
+            return e
+
+        for n in walk_no_nested(f.node):
+            if not (isinstance(n, ast.Call) and isinstance(n.func, ast.Attribute) and n.args):
+                continue
+            tgt = norm_text(n.func.value)
+            meth = n.func.attr
+            is_hard = "hardening" in tgt and meth in ("R", "dR")
+            is_state_fn = tgt == "self" and meth in ("Compute_back_stress", "Compute_sigma", "Compute_elastic_strain")
+            if not (is_hard or is_state_fn):
+                continue
+            arg = n.args[-1] if is_state_fn else n.args[0]
+            ex = loc.expand(arg)
+            r.instance(fn=f.qualname)
+            if is_state_sum(base_of(ex)):
+                r.ok(f"{nm}: {tgt}.{meth}(...) evaluated at a slot of zOld + du")
+                if is_hard:
+                    texts[(nm, meth)] = norm_text(ex)
+            else:
+                r.fail(f.qualname, f"point:{meth}", f.file, n.lineno, nm, f"`{norm_text(n)[:70]}` is evaluated at `{norm_text(ex)[:90]}`, which is not a slot of (committed state + increment): the law sees the increment (or the old state) instead of the updated value, so accumulated hardening is lost / the return lands off the current surface")
+    if ("__Residual", "R") in texts and ("__Jacobian", "dR") in texts:
+        fr, fj = beh.methods["__Residual"], beh.methods["__Jacobian"]
+        # compare after mapping each function's parameter names to its position-independent role (the caller's argument text)
+        r.instance(fn=fj.qualname)
+
+        def canon(fn, text):
+            ps = [p for p in fn.params() if p != "self"]
+            calls = [n for m in beh.methods.values() if m.cls is beh for n in ast.walk(m.node) if isinstance(n, ast.Call) and isinstance(n.func, ast.Attribute) and n.func.attr in (fn.node.name, "_Behavior" + fn.node.name)]
+            if not calls:
+                return None
+            c = calls[0]
+            t = ast.parse(text, mode="eval").body
+            m = {p: a for p, a in zip(ps, c.args)}
+
+            class S(ast.NodeTransformer):
+                def visit_Name(self, node):
+                    return m.get(node.id, node)
+
+            return norm_text(S().visit(t))
+
+        a, b = canon(fr, texts[("__Residual", "R")]), canon(fj, texts[("__Jacobian", "dR")])
+        if a is None or b is None or a == b:
+            r.ok("R (residual) and dR (Jacobian) are evaluated at the same state value")
+        else:
+            r.fail(fj.qualname, "point:R-vs-dR", fj.file, fj.lineno, "__Jacobian", f"the residual evaluates the hardening force at `{a[:80]}` but the Jacobian differentiates it at `{b[:80]}`: the local Newton matrix is not the derivative of the residual")
